@@ -1,4 +1,5 @@
 import Hub.Proofs.StoreInv
+import Hub.Proofs.TxnRefine
 import Hub.Model.Registry
 import Hub.Generated.Layout
 import Hub.Generated.LockFacts
@@ -16,6 +17,22 @@ have at least one version there — for batches and transactions, repeated and r
 theorem items_eq_distinct {db : DB} {S : Spec} (h : Inv db S) (ds : Nat) :
     db.itemsOf ds = (S.ids ds).length ∧ (S.ids ds).Nodup ∧ ∀ id, id ∈ S.ids ds ↔ S.vers ds id ≠ [] :=
   ⟨h.c.items ds, h.c.nodup ds, h.c.mem ds⟩
+
+open Hub.TxnRefine in
+/-- T-C19-2b (every history, transactions included): from the empty store, after any history of batches and multi-dataset
+transactions with increasing commit times, the counter of every dataset is the number of distinct ids that have at least one
+version there. -/
+theorem items_reachable (h : List (Nat × List (Nat × List Ent))) (hinc : h.Pairwise (fun a b => a.1 < b.1))
+    (hd : ∀ w ∈ h, (w.2.map (·.1)).Nodup) (ds : Nat) :
+    (runTxns h {}).itemsOf ds = ((specTxns h {}).ids ds).length ∧ ((specTxns h {}).ids ds).Nodup
+    ∧ ∀ id, id ∈ (specTxns h {}).ids ds ↔ (specTxns h {}).vers ds id ≠ [] :=
+  items_eq_distinct (txns_refine h {} {} inv_empty (by intro v hv; simp at hv) hinc hd) ds
+
+-- non-vacuity: entity 1 stored twice in dataset 2 (once in a transaction that also creates it in dataset 3): one item each
+open Hub.TxnRefine in
+example : let e : Ent := ⟨1, false, [], "a", []⟩; let d : Ent := ⟨1, true, [], "a", []⟩
+    let h := [(10, [(2, [e])]), (20, [(2, [d, e]), (3, [e, e])])]
+    (runTxns h {}).itemsOf 2 = 1 ∧ (runTxns h {}).itemsOf 3 = 1 := by decide
 
 /-- the counter moves by exactly the number of ids whose first ever version is in the batch. -/
 theorem items_step (S : Spec) (ds t i : Nat) (e : Ent) :
